@@ -42,6 +42,71 @@ def coq_make(targets, timeout=3000):
     rc, out = sh(["make", "-j%d" % NPROC] + list(targets), cwd=COQ, timeout=timeout)
     return rc == 0, out
 
+# ------------------------------------------------------------------ T12: source translation and its tie to the model
+TIE_ROOTS = {
+    "C02": ["parse_tls_plaintext", "parse_tls_encrypted", "parse_tls_raw_record", "parse_tls_record_header"],
+    "C03": ["parse_tls_plaintext", "parse_tls_record_with_header"],
+    "C04": ["parse_tls_message_handshake", r"re:parse_tls_handshake_.*"],
+    "C05": [r"re:parse_tls_.*extension.*", "parse_tls_oid_filter", "parse_protocol_name"],
+    "C06": [r"re:.*"], "C11": [r"re:.*"], "C01": [r"re:.*"], "C18": [r"re:.*"],
+    "C07": ["parse_tls_record_with_header"],
+    "C09": ["parse_tls_plaintext", r"re:parse_tls_extension.*"],
+    "C10": [r"re:parse_dtls_.*"],
+    "C13": ["parse_dh_params", "parse_ec_parameters", "parse_ecdh_params", "parse_digitally_signed", "parse_digitally_signed_old", "parse_content_and_signature"],
+    "C14": [r"re:parse_ct_.*", "parse_log_id"],
+    "C15": ["parse_tls_handshake_client_hello", "parse_dtls_client_hello"],
+    "C16": ["tls_parser_many", "tls_parser", "parse_dtls_plaintext_records"],
+}
+_tie_cache = {}
+def source_tie(pid):
+    """T12: translate the parser functions of the current source, re-check `src_f = run f` for each; returns a list of
+    (what, detail) for the functions in the property's call-graph closure whose tie no longer checks"""
+    roots = TIE_ROOTS.get(pid)
+    if not roots: return [], dict(functions=0)
+    if "rep" not in _tie_cache:
+        rc, out = sh([sys.executable, os.path.join(VERIF, "tools", "t12.py")], env=dict(ENV, VERIF_REPO=REPO))
+        rep = json.load(open(os.path.join(COQ, "gen", "t12_report.json")))
+        ok, mout = coq_make(["gen/SrcTie.vo", "Proofs/SrcTieManual.vo"])
+        failing = {}
+        if not ok:
+            # which statements fail: every statement tried on its own
+            ok2, mout2 = coq_make(["gen/SrcParsers.vo", "Proofs/TieTactics.vo"])
+            if not ok2:
+                m = re.search(r'File "([^"]+)", line (\d+)[^\n]*\n((?:.*\n){0,8})', mout2)
+                failing["*"] = "the source translation gen/SrcParsers.v does not type-check: " + (m.group(0) if m else mout2[-600:]).strip()
+            else:
+                rc3, dout = sh(["coqc", "-q", "-Q", ".", "TlsModel", "gen/SrcTieDiag.v"], cwd=COQ, timeout=3000)
+                for nm in re.findall(r"TIEFAIL tie_(\w+)", dout): failing[nm] = "`src_%s = run %s` is no longer provable: the source text of %s differs in meaning (or shape) from the model's term" % (nm, nm, nm)
+                ok4, mout4 = coq_make(["Proofs/SrcTieManual.vo"])
+                if not ok4:
+                    m = re.search(r'File "([^"]+)", line (\d+)[^\n]*\n((?:.*\n){0,8})', mout4)
+                    for nm in ("parse_tls_message_applicationdata", "parse_dtls_fragment"): failing.setdefault(nm, "Proofs/SrcTieManual.v no longer compiles: " + (m.group(0) if m else mout4[-400:]).strip())
+                if not failing: failing["*"] = "gen/SrcTie.v does not compile: " + mout[-600:]
+        _tie_cache.update(rep=rep, failing=failing)
+    rep, failing = _tie_cache["rep"], _tie_cache["failing"]
+    expected = json.load(open(os.path.join(VERIF, "tools", "t12_expected.json")))
+    allf = set(rep["translated"]) | set(rep["untranslatable"]) | set(expected)
+    def match(r, n): return re.fullmatch(r[3:], n) is not None if r.startswith("re:") else r == n
+    todo = [n for n in allf if any(match(r, n) for r in roots)]
+    seen = set()
+    while todo:
+        n = todo.pop()
+        if n in seen: continue
+        seen.add(n)
+        for c in rep["translated"].get(n, {}).get("calls", []):
+            if c in allf and c not in seen: todo.append(c)
+    broken = []
+    for d in rep.get("deviations", []):
+        m = re.match(r"UNTRANSLATABLE T12: (\w+):", d)
+        if m and (m.group(1) in seen or any(match(r, m.group(1)) for r in roots)): broken.append(("source-tie", d))
+    for f, e in rep.get("file_errors", []): broken.append(("source-tie", "T12 cannot read %s: %s" % (f, e)))
+    for n, why in failing.items():
+        if n == "*" or n in seen: broken.append(("source-tie", why))
+    devs = set(re.match(r"UNTRANSLATABLE T12: (\w+):", d).group(1) for d in rep.get("deviations", []) if re.match(r"UNTRANSLATABLE T12: (\w+):", d))
+    info = dict(functions=len(seen), tied=len([n for n in seen if expected.get(n) in ("tied", "manual") and n not in failing and n not in devs and "*" not in failing]),
+                outside_subset=sorted(n for n in seen if expected.get(n) == "outside"))
+    return broken, info
+
 FORBIDDEN = re.compile(r"\b(Admitted|admit|Axiom|Axioms|Parameter|Parameters|Conjecture|Conjectures|Hypothesis|Hypotheses|Variable|Variables|Context|Unset\s+Guard|bypass_check|type-in-type|impredicative-set|Admit\s+Obligations|native_compute)\b")
 def strip_coq_comments(s):
     out, depth, i, n = [], 0, 0, len(s)
